@@ -1788,20 +1788,37 @@ impl BoundedDisplay for ExprNoExt {
                         write!(f, " has \"{}\"", attr.escape_debug())
                     }
                 }
-                HasAttrRepr::Extended { left, attr } => {
+                HasAttrRepr::Extended { left, attr }
+                    if attr.iter().all(|attr| is_normalized_ident(attr)) =>
+                {
                     maybe_with_parens(f, left, n)?;
-                    if is_normalized_ident(&attr.head) {
-                        write!(f, " has {}", attr.head)?;
-                    } else {
-                        write!(f, " has \"{}\"", attr.head.escape_debug())?;
-                    }
+                    write!(f, " has {}", attr.head)?;
                     for attr in attr.tail.iter() {
-                        // TODO: validation, we shouldn't have non-idents here because
-                        // `principal has "foo".bar` doesn't parse
-                        if is_normalized_ident(attr) {
-                            write!(f, ".{}", attr)?;
+                        write!(f, ".{}", attr)?;
+                    }
+                    Ok(())
+                }
+                HasAttrRepr::Extended { left, attr } => {
+                    // `principal has "foo".bar` doesn't parse, so a chain with an
+                    // attribute that is not an identifier is printed as the
+                    // conjunction it stands for:
+                    // `principal has "foo" && principal["foo"] has bar`
+                    for (i, last) in attr.iter().enumerate() {
+                        if i > 0 {
+                            write!(f, " && ")?;
+                        }
+                        maybe_with_parens(f, left, n)?;
+                        for attr in attr.iter().take(i) {
+                            if is_normalized_ident(attr) {
+                                write!(f, ".{}", attr)?;
+                            } else {
+                                write!(f, "[\"{}\"]", attr.escape_debug())?;
+                            }
+                        }
+                        if is_normalized_ident(last) {
+                            write!(f, " has {}", last)?;
                         } else {
-                            write!(f, ".\"{}\"", attr.escape_debug())?;
+                            write!(f, " has \"{}\"", last.escape_debug())?;
                         }
                     }
                     Ok(())
